@@ -1,5 +1,6 @@
 SPECIFICATION Spec
 CONSTANTS MaxLen = 3
+BitSets <- BitsAll
 Fault = "none"
 INVARIANTS RefinesNamed Reflexive BranchesKnown BranchLog
 CHECK_DEADLOCK FALSE
